@@ -72,6 +72,31 @@ theorem meta_debug_hides_creds (c1 c2 host : List Char) (h1 : '.' ∉ c1) (h2 : 
     metaDebug (c1 ++ '.' :: host) (some c1) p ch = metaDebug (c2 ++ '.' :: host) (some c2) p ch := by
   rw [metaDebug_some, metaDebug_some, scrubSni_label c1 host h1, scrubSni_label c2 host h2]
 
+/-- **A secret carried only by sensitive headers does not occur in the scrubbed request at all**:
+stated on the output rather than by comparison - no header of the scrubbed list has the secret as its
+value, however many times and under whichever of the three names it was sent -/
+theorem secret_value_absent (hs : Headers) (secret : String) (hne : secret ≠ placeholder)
+    (hocc : ∀ x ∈ hs, x.2 = secret → x.1 ∈ sensitive) : ∀ x ∈ scrubHeaders hs, x.2 ≠ secret := by
+  intro x hx heq
+  by_cases hn : x.1 ∈ sensitive
+  · have := scrubbed_values_are_placeholders hs x.1 x.2 hx hn
+    exact hne (heq ▸ this)
+  · have hf : x ∈ (scrubHeaders hs).filter (fun h => !sensitive.contains h.1) := by
+      rw [List.mem_filter]
+      exact ⟨hx, by simpa using hn⟩
+    rw [scrub_keeps_other_headers] at hf
+    exact hn (hocc x (List.mem_filter.1 hf).1 heq)
+
+/-- a server name without a dot carries no credentials label and is printed as it is -/
+theorem scrub_sni_single_label (sni : List Char) (h : '.' ∉ sni) : scrubSni sni = sni := by
+  unfold scrubSni
+  have : sni.span (· != '.') = (sni, []) := by
+    simp [List.span, span_loop_nodot sni [] h]
+  rw [this]
+
+example : scrubSni "localhost".toList = "localhost".toList ∧
+    scrubSni "user-pass.vpn.example.org".toList = "scrubbed.vpn.example.org".toList := by decide
+
 /-- **Every log site is clean**: none of the (currently several hundred) logging calls and
 request-derived error strings of the library prints a secret-bearing expression that is not
 wrapped by a scrubber.  The list and the taint verdicts are regenerated from `/repo` on every
